@@ -31,8 +31,8 @@ Proof.
   specialize (Hf x). destruct (f x) as [t2 r2]. cbn in *. exact Hf.
 Qed.
 
-Lemma snd_mbind_done : forall (m : M A (value * store)) a, snd (mbind m (done a)) = snd m.
-Proof. intros [t [x|e|]] a; reflexivity. Qed.
+Lemma snd_mbind_done : forall (m : M A (value * store)) a C, snd (mbind m (done a C)) = snd m.
+Proof. intros [t [x|e|]] a C; reflexivity. Qed.
 
 Lemma snd_mbind_map : forall X Y Z (m : M A X) (f : X -> M A Y) r (h : Y -> Z) (g : X -> res Z),
   snd m = r -> (forall x, rmap h (snd (f x)) = g x) -> rmap h (snd (mbind m f)) = rbind r g.
@@ -41,9 +41,38 @@ Proof.
   specialize (Hf x). destruct (f x) as [t2 r2]. cbn in *. exact Hf.
 Qed.
 
+(* one-step unfoldings *)
+Lemma ieval_S : forall n s D mu C e,
+  ieval (S n) s D mu C e =
+  ieval_body A N (ieval n) (ievals n) (icmp_chain n) (ibool_chain n) (eval N P (S n)) s D mu C e.
+Proof. reflexivity. Qed.
+Lemma ievals_S : forall n s D mu C es,
+  ievals (S n) s D mu C es = ievals_body A (ieval n) (ievals n) s D mu C es.
+Proof. reflexivity. Qed.
+Lemma icmp_chain_S : forall n s D mu C v ops args,
+  icmp_chain (S n) s D mu C v ops args =
+  icmp_chain_body A N (ieval n) (icmp_chain n) (value_eq N n) s D mu C v ops args.
+Proof. reflexivity. Qed.
+Lemma ibool_chain_S : forall n s D mu C u args,
+  ibool_chain (S n) s D mu C u args = ibool_chain_body A (ieval n) (ibool_chain n) s D mu C u args.
+Proof. reflexivity. Qed.
+Lemma iexec_S : forall n s D mu C st,
+  iexec (S n) s D mu C st =
+  iexec_body A (ieval n) (iexec n) (iexec_block n) (ifor_loop n) (index_walk N P n) s D mu C st.
+Proof. reflexivity. Qed.
+Lemma iexec_block_S : forall n s D mu C b,
+  iexec_block (S n) s D mu C b = iexec_block_body A (iexec n) (iexec_block n) s D mu C b.
+Proof. reflexivity. Qed.
+Lemma ifor_loop_S : forall n s D mu C ph p l i body,
+  ifor_loop (S n) s D mu C ph p l i body =
+  ifor_loop_body A (iexec_block n) (ifor_loop n) s D mu C ph p l i body.
+Proof. reflexivity. Qed.
+
 Ltac estep tac :=
-  first [ apply snd_mbind_ext; [solve [tac | reflexivity] | let x := fresh "x" in intros x; try destruct x; cbn beta iota]
+  first [ apply snd_mbind_ext; [solve [tac | reflexivity] | let x := fresh "x" in intros x; try (destruct x as [? ?]); cbn beta iota]
         | reflexivity ].
+
+Ltac ifd := match goal with |- context [if ?b then _ else _] => destruct b end.
 
 (* ---------------------------------------------------------------- expressions *)
 Definition erase_expr_at (n : nat) : Prop :=
@@ -59,7 +88,7 @@ Proof.
   induction n as [|n (IHe & IHes & IHc & IHb)].
   - repeat split; intros; reflexivity.
   - repeat split.
-    + intros s D mu C e. rewrite eval_S. destruct e; cbn [Instr.ieval erase_e eval_body].
+    + intros s D mu C e. rewrite eval_S, ieval_S. destruct e; cbn [ieval_body erase_e eval_body].
       * destruct (env_get s x); reflexivity.
       * reflexivity.
       * destruct (d =? 0); reflexivity.
@@ -75,28 +104,24 @@ Proof.
       * rewrite snd_mbind_done. apply IHb.
       * rewrite snd_mbind_done. apply IHb.
       * repeat estep ltac:(apply IHe).
-      * estep ltac:(apply IHe). estep idtac. rewrite snd_mbind_done.
-        match goal with |- context [if ?b then _ else _] => destruct b end; apply IHe.
+      * estep ltac:(apply IHe). estep idtac. rewrite snd_mbind_done. ifd; apply IHe.
       * repeat estep ltac:(apply IHes).
       * repeat estep ltac:(apply IHes).
       * repeat estep ltac:(apply IHes).
       * rewrite snd_mbind_done. cbn [snd]. rewrite eval_S. reflexivity.
-    + intros s D mu C es. rewrite evals_S. destruct es as [|e r]; cbn [Instr.ievals map evals_body]; [reflexivity|].
+    + intros s D mu C es. rewrite evals_S, ievals_S. destruct es as [|e r]; cbn [ievals_body map evals_body]; [reflexivity|].
       estep ltac:(apply IHe). estep ltac:(apply IHes). reflexivity.
-    + intros s D mu C v ops args. rewrite cmp_chain_S.
-      destruct ops as [|o ops'], args as [|e args']; cbn [Instr.icmp_chain map cmp_chain_body]; try reflexivity.
+    + intros s D mu C v ops args. rewrite cmp_chain_S, icmp_chain_S.
+      destruct ops as [|o ops'], args as [|e args']; cbn [icmp_chain_body map cmp_chain_body]; try reflexivity.
       destruct (is_ordering o).
       * estep idtac. estep ltac:(apply IHe). estep idtac.
-        match goal with |- context [if ?b then _ else _] => destruct b end; [|reflexivity].
-        destruct ops'; [reflexivity|apply IHc].
+        ifd; [|reflexivity]. destruct ops'; [reflexivity|apply IHc].
       * estep ltac:(apply IHe). estep idtac.
-        match goal with |- context [if ?b then _ else _] => destruct b end; [|reflexivity].
-        destruct ops'; [reflexivity|apply IHc].
-    + intros s D mu C u args. rewrite bool_chain_S.
-      destruct args as [|e r]; cbn [Instr.ibool_chain map bool_chain_body]; [reflexivity|].
+        ifd; [|reflexivity]. destruct ops'; [reflexivity|apply IHc].
+    + intros s D mu C u args. rewrite bool_chain_S, ibool_chain_S.
+      destruct args as [|e r]; cbn [ibool_chain_body map bool_chain_body]; [reflexivity|].
       estep ltac:(apply IHe). estep idtac.
-      match goal with |- context [if ?b then _ else _] => destruct b end; [|reflexivity].
-      destruct r; [reflexivity|apply IHb].
+      ifd; [|reflexivity]. destruct r; [reflexivity|apply IHb].
 Qed.
 
 Theorem ieval_erase : forall n s D mu C e,
@@ -144,6 +169,16 @@ Qed.
 (* ---------------------------------------------------------------- statements *)
 Definition eo (r : ioutcome A * store) : outcome * store := (erase_o A (fst r), snd r).
 
+Lemma snd_mbind_k : forall X X' Y Z (m : M A X) (f : X -> M A Y) (k : X -> X') r (h : Y -> Z) (g : X' -> res Z),
+  rmap k (snd m) = r -> (forall x, rmap h (snd (f x)) = g (k x)) -> rmap h (snd (mbind m f)) = rbind r g.
+Proof.
+  intros X X' Y Z [t [x|e|]] f k r h g Hm Hf; cbn in Hm; subst r; cbn; auto.
+  specialize (Hf x). destruct (f x) as [t2 r2]. cbn in *. exact Hf.
+Qed.
+
+Lemma snd_mbind_ok : forall X Y t (x : X) (f : X -> M A Y), snd (mbind (t, ROk x) f) = snd (f x).
+Proof. intros. cbn. destruct (f x); reflexivity. Qed.
+
 Definition erase_stmt_at (n : nat) : Prop :=
   (forall s D mu C st, rmap eo (snd (iexec n s D mu C st)) = exec N P n s mu C (erase_s A st)) /\
   (forall s D mu C b, rmap eo (snd (iexec_block n s D mu C b)) = exec_block N P n s mu C (erase_b A b)) /\
@@ -157,42 +192,79 @@ Proof.
   unfold after_phis. cbn [mbind fst]. destruct o; reflexivity.
 Qed.
 
-Ltac sstep tac :=
-  first [ apply snd_mbind_map; [solve [tac | reflexivity] | let x := fresh "x" in intros x; try destruct x; cbn beta iota]
-        | reflexivity ].
+Lemma rmap_id_snd : forall X (m : M A X), rmap (fun x => x) (snd m) = snd m.
+Proof. intros X [t [x|e|]]; reflexivity. Qed.
+
+(* bind on an expression evaluation *)
+Ltac sev :=
+  apply snd_mbind_k with (k := fun x => x);
+  [rewrite rmap_id_snd; apply ieval_erase | let x := fresh "x" in intros x; try (destruct x as [? ?]); cbn beta iota].
+(* bind on a pure `liftr` *)
+Ltac slift :=
+  apply snd_mbind_k with (k := fun x => x);
+  [rewrite rmap_id_snd; reflexivity | let x := fresh "x" in intros x; try (destruct x as [? ?]); cbn beta iota].
 
 Lemma erase_stmt_all : forall n, erase_stmt_at n.
 Proof.
   induction n as [|n (IHs & IHb & IHf)].
   - repeat split; intros; reflexivity.
   - repeat split.
-    + intros s D mu C st. rewrite exec_S.
-      destruct st; cbn [Instr.iexec erase_s exec_body].
-      * sstep ltac:(apply ieval_erase).
-        pose proof (mbind_pat_erase p v s D) as H.
-        destruct (mbind_pat A p v s D) as [t [[s' D']|e|]]; cbn [snd rmap] in H; rewrite <- H; reflexivity.
-      * sstep ltac:(apply ieval_erase).
+    + intros s D mu C st. rewrite exec_S, iexec_S.
+      destruct st; cbn [iexec_body erase_s exec_body].
+      * (* assign *) sev.
+        apply snd_mbind_k with (k := fst); [apply mbind_pat_erase|]. intros [s' D']. reflexivity.
+      * (* indexed assign *) sev.
         destruct (env_get s x); [|reflexivity].
-        sstep idtac. reflexivity.
-      * rewrite rmap_after_phis.
-        sstep ltac:(apply ieval_erase). sstep idtac.
-        destruct x; [apply IHb|reflexivity].
-      * rewrite rmap_after_phis.
-        sstep ltac:(apply ieval_erase). sstep idtac.
-        destruct x; apply IHb.
-      * cbn [mbind app].
-        match goal with |- rmap eo (snd (let '(t2, r) := ?m in _)) = _ =>
-          assert (E : rmap eo (snd m) =
-            rbind (eval N P n s mu C (erase_e A c)) (fun '(vc, mu1) =>
-              rbind (as_bool vc) (fun t => if t
-                then rbind (exec_block N P n s mu1 C (map (erase_s A) body)) (fun '(o, mu2) =>
-                       match o with OReturn v => ROk (OReturn v, mu2)
-                                  | ONormal s' => exec N P n s' mu2 C (SWhile (erase_e A c) (map (erase_s A) body)) end)
-                else ROk (ONormal s, mu1)))); [|destruct m as [t2 r2]; exact E] end.
-        sstep ltac:(apply ieval_erase). sstep idtac.
-        destruct x; [|reflexivity].
-        apply snd_mbind_map with (r := rmap eo (snd (iexec_block n s D s0 C body))).
-        { reflexivity. }
-        Fail idtac.
-Abort.
+        apply snd_mbind_k with (k := fun x => x); [rewrite rmap_id_snd; reflexivity|]. intros mu2. reflexivity.
+      * (* if1 *) sev. slift. rewrite rmap_after_phis. ifd; [apply IHb|reflexivity].
+      * (* if *) sev. slift. rewrite rmap_after_phis. ifd; apply IHb.
+      * (* while *) rewrite snd_mbind_ok. sev. slift. ifd; [|reflexivity].
+        apply snd_mbind_k with (k := eo); [apply IHb|]. intros [o mu2]. destruct o as [s' D'|rv]; [|reflexivity].
+        apply (IHs s' D' mu2 C (ASWhile ph c body)).
+      * (* for *) sev. slift. apply IHf.
+      * (* with *) sev. destruct v; try reflexivity.
+        destruct x as [[a x]|]; cbn [option_map snd].
+        -- rewrite snd_mbind_ok. apply IHb.
+        -- apply IHb.
+      * (* assert *) sev. slift. ifd; reflexivity.
+      * sev. reflexivity.
+      * sev. reflexivity.
+      * reflexivity.
+    + intros s D mu C b. rewrite exec_block_S, iexec_block_S.
+      destruct b as [|st r]; cbn [iexec_block_body erase_b map exec_block_body]; [reflexivity|].
+      apply snd_mbind_k with (k := eo); [apply IHs|]. intros [o mu1]. destruct o as [s' D'|rv]; [|reflexivity].
+      apply IHb.
+    + intros s D mu C ph p l i body. rewrite for_loop_S, ifor_loop_S.
+      unfold ifor_loop_body, for_loop_body. rewrite snd_mbind_ok.
+      destruct (store_get mu l) as [vs|]; [|reflexivity].
+      destruct (nth_error vs i) as [x|]; [|reflexivity].
+      apply snd_mbind_k with (k := fst); [apply mbind_pat_erase|]. intros [s1 D1]. cbn [fst].
+      apply snd_mbind_k with (k := eo); [apply IHb|]. intros [o mu1]. destruct o as [s2 D2|rv]; [|reflexivity].
+      apply IHf.
+Qed.
+
+Theorem iexec_erase : forall n s D mu C st,
+  rmap eo (snd (iexec n s D mu C st)) = exec N P n s mu C (erase_s A st).
+Proof. intros n. apply (erase_stmt_all n). Qed.
+
+Theorem iexec_block_erase : forall n s D mu C b,
+  rmap eo (snd (iexec_block n s D mu C b)) = exec_block N P n s mu C (erase_b A b).
+Proof. intros n. apply (erase_stmt_all n). Qed.
+
+(* the entry point: Sem.call on the erased function *)
+Theorem icall_erase : forall n fn vs mu C,
+  snd (icall A N P n fn vs mu C) = call N P n (erase_f A fn) vs mu C.
+Proof.
+  intros [|n] fn vs mu C; [reflexivity|]. rewrite call_S. unfold icall, call_body, erase_f.
+  cbn [f_params f_ctx f_body].
+  pose proof (ibind_params_erase (af_params fn) vs [] []) as Hp.
+  destruct (ibind_params A (af_params fn) vs [] []) as [t r]. cbn [snd] in Hp.
+  destruct r as [[s D]|e]; rewrite Hp; [|reflexivity].
+  cbn [lift]. rewrite snd_mbind_ok. cbn [rbind].
+  pose proof (iexec_block_erase n s D mu (match af_ctx fn with Some c => c | None => C end) (af_body fn)) as Hb.
+  rewrite <- Hb.
+  destruct (iexec_block n s D mu _ (af_body fn)) as [t2 [[o mu1]|e|]]; try reflexivity.
+  destruct o; reflexivity.
+Qed.
+
 End Erasure.
